@@ -5,6 +5,8 @@ pub mod c04;
 pub mod c05;
 pub mod c09;
 pub mod c10;
+pub mod c11;
+pub mod c12;
 pub mod c14;
 pub mod c15;
 pub mod c20;
@@ -26,6 +28,8 @@ pub fn dispatch(id: &str, args: Args) -> ! {
         "C05" => c05::run(args),
         "C09" => c09::run(args),
         "C10" => c10::run(args),
+        "C11" => c11::run(args),
+        "C12" => c12::run(args),
         "C14" => c14::run(args),
         "C15" => c15::run(args),
         "C20" => c20::run(args),
